@@ -131,6 +131,18 @@ func monitorBookDrained(c *vh.Ctx, rp Replay, obs []rh.BObs) {
 				serial++
 			} else if obs[i].Res == 1 && len(live) < rp.MaxConns {
 				sig := rp.Kind + "-limit-consumed-by-dead-tunnels"
+				if !collided {
+					sig = rp.Kind + "-connection-slot-leak"
+				}
+				c.Fail(sig, fmt.Sprintf("%s: step %d: open refused with 'connection limit exceeded' (limit %d) while only %d tunnels are alive; ConnectionCount()=%d",
+					rp.Name, i, rp.MaxConns, len(live), obs[i].Count), rp)
+			}
+		case "openzero":
+			if obs[i].Res == 1 && len(live) < rp.MaxConns {
+				sig := rp.Kind + "-limit-consumed-by-dead-tunnels"
+				if !collided {
+					sig = rp.Kind + "-connection-slot-leak"
+				}
 				c.Fail(sig, fmt.Sprintf("%s: step %d: open refused with 'connection limit exceeded' (limit %d) while only %d tunnels are alive; ConnectionCount()=%d",
 					rp.Name, i, rp.MaxConns, len(live), obs[i].Count), rp)
 			}
@@ -142,6 +154,11 @@ func monitorBookDrained(c *vh.Ctx, rp Replay, obs []rh.BObs) {
 			}
 		case "destclose":
 			delete(live, op.Serial)
+		}
+		// as long as no two peers shared a stream id, the counter is the number of records
+		if !collided && obs[i].Count != int64(len(obs[i].Recs)) {
+			c.Fail(rp.Kind+"-connection-slot-leak", fmt.Sprintf("%s: step %d (%+v): ConnectionCount()=%d but %d connection records exist (no stream id was shared)",
+				rp.Name, i, op, obs[i].Count, len(obs[i].Recs)), rp)
 		}
 		if obs[i].Note != "" {
 			c.Fail("harness-timeout", rp.Name+": "+obs[i].Note, rp)
@@ -182,6 +199,12 @@ func witnesses() []Replay {
 			{Op: "open", Peer: 1, ID: 1}, {Op: "open", Peer: 2, ID: 1}, {Op: "close", Peer: 1, ID: 1}, {Op: "close", Peer: 2, ID: 1}, {Op: "destclose", Serial: 0},
 			{Op: "open", Peer: 1, ID: 3}, {Op: "open", Peer: 2, ID: 3}, {Op: "close", Peer: 1, ID: 3}, {Op: "close", Peer: 2, ID: 3}, {Op: "destclose", Serial: 2},
 			{Op: "open", Peer: 3, ID: 1}}},
+		{Kind: "exit", Name: "exit-zero-key-opens", MaxConns: 2, Book: []rh.BOp{
+			{Op: "openzero", Peer: 1, ID: 1}, {Op: "openzero", Peer: 2, ID: 1}, {Op: "openzero", Peer: 1, ID: 3},
+			{Op: "open", Peer: 3, ID: 1}, {Op: "close", Peer: 3, ID: 1}}},
+		{Kind: "forward", Name: "forward-zero-key-opens", MaxConns: 2, Book: []rh.BOp{
+			{Op: "openzero", Peer: 1, ID: 1}, {Op: "openzero", Peer: 2, ID: 1}, {Op: "openzero", Peer: 1, ID: 3},
+			{Op: "open", Peer: 3, ID: 1}, {Op: "close", Peer: 3, ID: 1}}},
 		{Kind: "forward", Name: "forward-limit-consumed", MaxConns: 2, Book: []rh.BOp{
 			{Op: "open", Peer: 1, ID: 1}, {Op: "open", Peer: 2, ID: 1}, {Op: "close", Peer: 1, ID: 1}, {Op: "close", Peer: 2, ID: 1}, {Op: "destclose", Serial: 0},
 			{Op: "open", Peer: 1, ID: 3}, {Op: "open", Peer: 2, ID: 3}, {Op: "close", Peer: 1, ID: 3}, {Op: "close", Peer: 2, ID: 3}, {Op: "destclose", Serial: 2},
